@@ -247,7 +247,7 @@ PROPS = {
     "C10": P("proof", [("history", 12, 1500), ("historylong", 0, 40)], ["H.*"], rule=RULE +
              "; a history is a sequence of 40 (long: 400) API calls over pools of 4 elements and 4 scalars with 40% aliased choices, every pool variable observed after every step"),
     "C11": P("proof", [("map", 250, 40000), ("chosenu", 40, 12000)], ["PT.sswu", "PT.map", "PT.iso", "H2C.e2gu"], rule=RULE, model_ignore=["c"]),
-    "C12": P("proof", [("field", 4000, 1000000)], ["F.*"], rule=RULE),
+    "C12": P("proof", [("field", 4000, 1000000), ("fh2f", 300, 40000)], ["F.*"], rule=RULE),
     "C13": P("proof", [("cmp", 3000, 600000), ("sfcmp", 1000, 200000)], ["SC.*", "S.*"], rule=RULE),
     "C14": P("proof", [("bits", 1500, 300000)], ["SC.bits"], rule=RULE),
     "C15": P("proof", [("memvet", 250, 30000)], ["MEM.vet"], special=[special_mem], rule=RULE +
